@@ -120,6 +120,36 @@ Theorem definition_enters_table : forall ord cp n tbl ps s d0 body c,
 Proof. exact compile_define_var. Qed.
 Print Assumptions definition_enters_table.
 
+(* ---- parameters shadow: inside a lambda - however deeply nested - a name that is a parameter
+   of it or of an enclosing lambda is a parameter reference, whatever variable, function or
+   built-in of that name exists outside; and its value is the innermost binding. ---- *)
+Theorem nested_lambda_sees_enclosing_parameters : forall ord cp n tbl ps l body,
+  compile ord cp (S n) tbl ps (OBin KLambda l (Some body)) =
+  do names <- param_names n (Some l);
+  do c <- compile ord cp n tbl (names ++ ps) body;
+  if c_changed c then Ok (mkC (OBin KLambda l (Some (c_op c))) true (c_tbl c))
+  else Ok (mkC (OBin KLambda l (Some body)) false (c_tbl c)).
+Proof. exact compile_lambda_eq. Qed.
+Print Assumptions nested_lambda_sees_enclosing_parameters.
+
+Theorem parameter_shadows_outer_definitions : forall ord cp n tbl names ps s,
+  in_names s names || in_names s ps = true ->
+  compile ord cp (S n) tbl (names ++ ps) (OIdent s None) = Ok (mkC (OIdent s (Some OPlug)) true tbl).
+Proof. exact param_reference_compiles. Qed.
+Print Assumptions parameter_shadows_outer_definitions.
+
+Theorem parameter_value_is_innermost_binding : forall ord cp n tbl inner outer s,
+  (forall x, lookup s inner = Some x ->
+     calc ord cp (S n) tbl (inner ++ outer) (OIdent s (Some OPlug)) = Ok x) /\
+  (forall x, lookup s inner = None -> lookup s outer = Some x ->
+     calc ord cp (S n) tbl (inner ++ outer) (OIdent s (Some OPlug)) = Ok x).
+Proof. intros. split; intros x; [apply param_reference_innermost | apply param_reference_outer]. Qed.
+Print Assumptions parameter_value_is_innermost_binding.
+
+(* vx = 10; fn = (vx -> (vy -> vx + vy)(1)); fn(5) is 6 *)
+Example shadowing_example : run false w_cp [] w_shadow = Ok (Some (XV (w_num 6))).
+Proof. vm_compute. reflexivity. Qed.
+
 (* ---- compile preserves values on the definition-free fragment; folding is sound ---- *)
 Theorem calc_compile : forall ord cp tbl,
   (forall s d, lookup s tbl = Some d -> d <> OPlug) ->
